@@ -6,6 +6,7 @@ import c12_lang
 
 TRACES = {}          # thread ident -> list of probe records
 PRISTINE = {}        # 'main'/'other'/<name> -> canonical pristine definition, 'vars', 'shortcuts'
+ALT_DIR = [None]     # where c12_wraploader looks first for `child`
 GETDEFS = [None]     # callable -> {name: live object}
 TURN = {'cond': threading.Condition(), 'schedule': [], 'pos': 0, 'active': False, 'dead': set()}
 
